@@ -1,6 +1,7 @@
 package main
 
 import (
+	"os"
 	"fmt"
 	"go/types"
 	"strings"
@@ -91,6 +92,13 @@ func (h *Heap) clone() *Heap {
 type Unsupported struct{ Msg string }
 
 func unsup(f string, a ...interface{}) {
+	if os.Getenv("GOVC_DEBUG_UNSUP") != "" {
+		fn := []string{}
+		if curExec != nil {
+			fn = curExec.curFunc
+		}
+		fmt.Fprintf(os.Stderr, "UNSUP %s\n  in %v\n  %s\n", fmt.Sprintf(f, a...), fn, debugStack())
+	}
 	panic(Unsupported{fmt.Sprintf(f, a...)})
 }
 
